@@ -153,7 +153,11 @@ BlockChecks(e, BB, UU) ==
                 ELSE {})
                \cup (IF e.x.tag = "genesis-edit" /\ e.x.bedit \in C06Edits /\ e.res = "AddedLc"
                      THEN {Bad(e, "C06", "edited-block-accepted:" \o e.x.bedit \o " as the first block")} ELSE {})
-        pan == IF IsPanic(e.res) THEN {Bad(e, "C11", IF env.detached THEN "panic-on-chain-without-known-ancestors" ELSE "panic")} ELSE {}
+        \* (known finding: a block wound without the ledger checks by a reorganisation as deep as the window breaks them;
+        \* the node's own supply self-check notices right after winding and stops the node)
+        pan == IF IsPanic(e.res) THEN {Bad(e, "C11", IF env.detached THEN "panic-on-chain-without-known-ancestors"
+                                                     ELSE IF taintnow \/ env.tainted THEN "panic-after-a-reorganisation-as-deep-as-the-window"
+                                                     ELSE "panic")} ELSE {}
         \* the work the node computed for the block, against the definition (valid paths only)
         c08k == IF e.x.bedit = "" /\ \A i \in DOMAIN BB[lab].txs : BB[lab].txs[i].pathok
                    /\ ~LimbEq(BlockWork(BB[lab].txs, BB[lab].creator), T3(e.hdr.work))
